@@ -136,10 +136,11 @@ class SolutionRepository(Repository):
             self._parse_multi_line("", meta_file)
 
     def _remove_nodes(self) -> None:
+        # Requirers that never got a pin of their own still carry the stand-in metadata
+        # made in _add_sources: its origin is not this repository.
         nodes_to_remove = []
-        missing_ver = req_compile.utils.parse_version("0+missing")
         for node in self.solution:
-            if node.metadata is None or node.metadata.version == missing_ver:
+            if node.metadata is None or node.metadata.origin is not self:
                 nodes_to_remove.append(node)
         for node in nodes_to_remove:
             try:
